@@ -145,6 +145,7 @@ def rule_failures(chk, prog, tier):
         nst = 5
         jobs.append((argv, label, {'outcomes': [0, 256], 'ld_outcomes': [0, 256]}, 'exit1'))
         jobs.append((argv, label, {'outcomes': [0, 11], 'ld_outcomes': [0, 11]}, 'signal'))
+        jobs.append((argv, label, {'outcomes': [0, 256], 'ld_outcomes': [0], 'foreign': 1}, 'exit1+inherited-child'))      # wait() may also report a process that is no stage of this pipeline
         if tier == 'thorough':
             jobs.append((argv, label, {'outcomes': [0, 256, 9], 'ld_outcomes': [0, 9]}, 'mixed'))
         for k in range(0, 7):
